@@ -380,11 +380,13 @@ PROPS = {
                 "is loaded with the production constructors: it must load, equal the complete old or the complete new observable value "
                 "(board text, news tree, accounts with name/privileges/password hash, ban map), and be new if ACK was printed; "
                 "evaluations = killed runs; non-trivial = crash point strictly after the first and not after the last mutating call of the "
-                "update; distinct = hash(history, crash point index); exhaustive per generated update (all system-call boundaries); every update that was acknowledged by a process that then ended normally must be visible to a restart (independent per-operation expectation: post at the top of the board file, ban entry with its expiry, account present/renamed/absent with name and privileges, news item present/absent); after every kill point the restarted store makes one more, independent update without any fault: it must be acknowledged, visible, and the stores must equal that update applied to what the restart had loaded (nothing the crash left behind may leak into later updates); the updates before the in-flight one may be bursts of 2-6 commuting updates (bans of different addresses, creations of different accounts / bundles / categories) made at the same time on one store object, each of which must succeed and be visible to a restart",
+                "update; distinct = hash(history, crash point index); exhaustive per generated update (all system-call boundaries); every update that was acknowledged by a process that then ended normally must be visible to a restart (independent per-operation expectation: post at the top of the board file, ban entry with its expiry, account present/renamed/absent with name and privileges, news item present/absent); after every kill point the restarted store makes one more, independent update without any fault: it must be acknowledged, visible, and the stores must equal that update applied to what the restart had loaded (nothing the crash left behind may leak into later updates); the updates before the in-flight one may be bursts of 2-6 commuting updates (bans of different addresses, creations of different accounts / bundles / categories) made at the same time on one store object, each of which must succeed and be visible to a restart; TestC20Acked: 1-6 changes made through the protocol (board post, disconnect with temporary / permanent ban, new / set / rename / delete account, news category / post / delete article); at the instant the client holds the positive reply the configuration directory is copied as a crash would leave it and fresh stores loaded from the copy must hold the change",
         "assumptions": ["fault model = process kill at system-call boundaries (page cache survives); torn single writes and power loss are not modelled",
                         "strace when= counters are per thread: kills caused by another runtime thread reaching the same ordinal are extra crash points, never missing ones"],
-        "quick": {"runs": [{"test": "^TestC20$", "shards": 16, "checks": 6, "timeout": 900}]},
-        "thorough": {"runs": [{"test": "^TestC20$", "shards": 16, "checks": 150, "timeout": 3400}]},
+        "quick": {"runs": [{"test": "^TestC20$", "shards": 14, "checks": 6, "timeout": 900},
+                           {"test": "^TestC20Acked$", "shards": 2, "checks": 60, "timeout": 900}]},
+        "thorough": {"runs": [{"test": "^TestC20$", "shards": 14, "checks": 150, "timeout": 3400},
+                              {"test": "^TestC20Acked$", "shards": 2, "checks": 3000, "timeout": 3400}]},
     },
     "C03": {
         "title": "Hostile input is contained to the offending connection",
